@@ -1,6 +1,7 @@
 import DcVerif.Lemmas.Ring
 import DcVerif.Props.C04
 import DcVerif.Lemmas.RingMulti
+import DcVerif.Lemmas.RingMultiPay
 /-!
 # C13 — a later barrier stage sees an event only after the previous stage finished it (single-producer pipelines)
 
@@ -17,6 +18,9 @@ For every ring size, topology, batch list, wait strategy and **every schedule** 
 * `c13_sees_earlier_modifications` — on the slot layer (`Model/RingPay.lean`): what a handler of stage `k+1` is handed for a
   sequence is what stage `k` was handed, with stage `k`'s mutable handler (if it has one) applied — it observes all
   modifications of the previous stage. That the accesses are also *ordered* (happens-before) is R2 of C05.
+* `c13_multi_sees_earlier_modifications`, `c13_multi_sees_previous_stage` — the same on the slot layer of the multi-producer
+  pipeline (`Model/RingMultiPay.lean`; ring sizes `2^e`, any number of writer threads, every schedule); the second form does
+  not mention the written value: stage `k+1` saw what every handler of stage `k` saw, with stage `k`'s mutable handler applied.
 -/
 namespace C13
 open Ring
@@ -93,5 +97,52 @@ def demo : PSt := runX (mk 4 2 (fun _ => 1) false [2, 1])
 
 example : (demo.s.cons 1 0).pc = .handle ∧ (demo.s.cons 1 0).i = 1 ∧ (demo.s.cons 1 0).avail = 2 ∧
     (demo.s.cons 0 0).cur = 2 ∧ (demo.s.cons 0 0).log = [1, 2] := by decide +kernel
+
+/-! ## observation of the earlier stages' modifications, multi-producer pipelines (slot layer `Model/RingMultiPay.lean`) -/
+section MultiPayload
+open RingMulti RingPay RingMultiPay
+
+/-- a handler of stage `k+1` observes exactly the modifications made by stage `k` (and, through it, by all earlier stages) to
+the value written for the sequence (`val`: the value of the one slot write of that sequence, `C04.c04_multi_written_once`) —
+every ring size `2^e`, topology with mutable handlers alone in their stage, number of writers, batch lists, every schedule -/
+theorem c13_multi_sees_earlier_modifications {c : MPCfg} {s : MPaySt} (hr : C04.MPayReachable c s) (k j : Nat)
+    (hk : k + 1 < s.x.s.K) (hj : j < s.x.s.h (k + 1)) (e : Nat × Nat) (he : e ∈ s.seen (k + 1) j) :
+    e.2 = (if c.mutH k 0 then c.tf k 0 (expectBelow c.hc k (s.val e.1)) else expectBelow c.hc k (s.val e.1)) := by
+  have := C04.c04_multi_payload_intact_val hr (k + 1) j hk hj e he
+  simp only [expectBelow, hc_mutH, hc_tf] at this
+  exact this
+
+/-- the same without reference to the written value: whatever a handler of stage `k+1` was handed for a sequence, *every*
+handler of stage `k` was handed that sequence too, and the later stage saw what the earlier stage saw with the earlier stage's
+mutable handler (if it has one) applied — nothing else happened to the event in between -/
+theorem c13_multi_sees_previous_stage {c : MPCfg} {s : MPaySt} (hr : C04.MPayReachable c s) (k j : Nat)
+    (hk : k + 1 < s.x.s.K) (hj : j < s.x.s.h (k + 1)) (e : Nat × Nat) (he : e ∈ s.seen (k + 1) j)
+    (j' : Nat) (hj' : j' < s.x.s.h k) :
+    ∃ v, (e.1, v) ∈ s.seen k j' ∧ e.2 = (if c.mutH k 0 then c.tf k 0 v else v) := by
+  have hg := C04.mpayReachable_good hr
+  have hI := hg.safe.1.1.1.2.1
+  -- `e.1` is in the log of the later handler, hence at most its progress, hence at most the earlier handler's cursor
+  have hlog : e.1 ∈ (s.x.s.cons (k + 1) j).log := by
+    rw [← hg.seen (k + 1) j]; exact List.mem_map.2 ⟨e, he, rfl⟩
+  obtain ⟨hpre, _⟩ := C04.log_prefix_of_inv s.x.s hI (k + 1) j hk hj
+  rw [hpre, List.mem_range'_1] at hlog
+  have hle := progress_le_earlier_cur s.x.s hI 0 (k + 1) k j j' (by omega) hk hj hj'
+  have hmem : e.1 ∈ (s.x.s.cons k j').log :=
+    mem_log_of_le_cur s.x.s hI k j' (by omega) hj' e.1 hlog.1 (by
+      have : C04.progress (s.x.s.cons (k + 1) j) = RingPay.progress (s.x.s.cons (k + 1) j) := rfl
+      omega)
+  rw [← hg.seen k j'] at hmem
+  obtain ⟨e', he', hfst⟩ := List.mem_map.1 hmem
+  have h1 := C04.c04_multi_payload_intact_val hr k j' (by omega) hj' e' he'
+  have h2 := c13_multi_sees_earlier_modifications hr k j hk hj e he
+  refine ⟨e'.2, ?_, ?_⟩
+  · rw [← hfst]; exact he'
+  · rw [h2, h1, hfst]
+
+/-- non-vacuity: the run of `C04.demoMPay` (two writers, interleaved writes, the ring wraps) -/
+example : (5, 3006) ∈ C04.demoMPay.seen 1 0 ∧ (5, 1002) ∈ C04.demoMPay.seen 0 0 ∧
+    C04.demoMCfg.mutH 0 0 = true ∧ C04.demoMCfg.tf 0 0 1002 = 3006 := by decide +kernel
+
+end MultiPayload
 
 end C13
